@@ -1,5 +1,6 @@
 //! Simulated world around the real state machine (see DESIGN.md section 3.2 / 3.3).
 pub mod exec;
 pub mod gen;
+pub mod logsub;
 pub mod types;
 pub mod world;
